@@ -292,6 +292,15 @@ class FortranEngine:
                     f'{offset} + {t} -> position {offset + t_check} >= {len(self.span)} periods in span'
                 )
 
+            # Error if the period is out of bounds or can't accommodate the
+            # model's lags and leads (as in `_evaluate()`)
+            elif error_code in (11, 12, 13, 14):
+                raise IndexError(
+                    f'Position `t` ({t}) is out of bounds or cannot accommodate '
+                    f'the lags ({self.lags}) and leads ({self.leads}) of the model, '
+                    f'given a span of {len(self.span)} period(s)'
+                )
+
             # Some other error but `errors='skip'`
             elif error_code == 22 and errors == 'skip':
                 self.status[t] = SolutionStatus.SKIPPED.value
@@ -470,6 +479,15 @@ class FortranEngine:
 
         elif error_code == 22 and errors == 'skip':
             status = SolutionStatus.SKIPPED.value
+
+        # Error if the period is out of bounds or can't accommodate the model's
+        # lags and leads (as in `_evaluate()`)
+        elif error_code in (11, 12, 13, 14):
+            raise IndexError(
+                f'Position `t` ({t}) is out of bounds or cannot accommodate '
+                f'the lags ({self.lags}) and leads ({self.leads}) of the model, '
+                f'given a span of {len(self.span)} period(s)'
+            )
 
         else:
             raise FortranEngineError(
